@@ -74,7 +74,9 @@ Theorem C16_memo_neval_counts_misses :
 Proof. exact memo2_neval_counts_misses. Qed.
 Print Assumptions C16_memo_neval_counts_misses.
 
-(* whatever the caller writes into arrays returned earlier is invisible *)
+(* whatever the caller writes into arrays returned earlier (Mut) or into its own arrays
+   that it passed as inputs and passes again as the same objects (MutIn) is invisible:
+   the run of a history is the run of its calls alone *)
 Theorem C16_memo_mutation_invisible :
   forall (V : Type) (op : dir -> V -> V) (close : V -> V -> bool) (h : list (hop V)) (s : st2 V),
     run2 V op close h s = run2 V op close (map (fun c => Call (fst c) (snd c)) (calls h)) s.
@@ -92,6 +94,19 @@ Example C16_memo_alias_ok :
      [Call Fwd x2; Call Fwd x2; Mut 1 [qi 103; qi 107; qi 101]; Call Fwd x2] (init2 _ 3)))
   = [[qi 3; qi 7; qi 1]; [qi 3; qi 7; qi 1]; [qi 3; qi 7; qi 1]].
 Proof. exact memo2_alias_ok. Qed.
+
+(* caller rewrites, in place, an array it passed as input and passes it again: a miss, fresh result *)
+Example C16_memo_inkey_ok :
+  map (fun o => (o_res o, o_neval o)) (fst (run2 _ (opQ 2 A32) allclose_q
+     [Call Fwd x2; MutIn 0 [qi 2; qi 5]; Call Fwd [qi 2; qi 5]] (init2 _ 3)))
+  = [([qi 3; qi 7; qi 1], 1); ([qi 12; qi 26; qi 5], 2)].
+Proof. exact memo2_inkey_ok. Qed.
+(* square operator: the same vector as model and as data is evaluated once per direction *)
+Example C16_memo_square_ok :
+  map (fun o => (o_res o, o_neval o)) (fst (run2 _ (opQ 2 A22) allclose_q
+     [Call Fwd x2; Call Adj x2; Call Fwd x2] (init2 _ 3)))
+  = [([qi 3; qi 7], 1); ([qi 4; qi 6], 2); ([qi 3; qi 7], 2)].
+Proof. exact memo2_square_ok. Qed.
 
 (* ================= LEGACY: the code before the fix (memo1) =================
    Not statements about the current implementation.  They document why the fix
